@@ -42,8 +42,8 @@ def leaf_cls(leaf):
 def build_arg(a, depth=0):
     if isinstance(a, PathT):
         return build_path(a)
-    if depth == 0 and isinstance(a, list):
-        return [build_arg(x, 1) for x in a]
+    if depth == 0 and isinstance(a, (list, tuple)):
+        return type(a)(build_arg(x, 1) for x in a)
     if depth == 0 and isinstance(a, dict):
         return {k: build_arg(v, 1) for k, v in a.items()}
     return a
